@@ -1,9 +1,9 @@
 (* C08 -- A block is sealed only by work on exactly its contents.
    Property theorems only: each is closed by [exact <lemma>] and followed by [Print Assumptions].
-   Model: Model/C08.v   Lemmas: Proofs/C08.v, Proofs/C08_engine.v   Generated data: Generated/C08Fields.v *)
+   Model: Model/C08.v   Lemmas: Proofs/C08.v, Proofs/C08_engine.v, Proofs/C08_template.v   Generated data: Generated/C08Fields.v *)
 From Coq Require Import String.
 From Coq Require Import List ZArith Bool.
-From GQ Require Import Generated.C08Fields Model.C08 Proofs.C08 Proofs.C08_engine.
+From GQ Require Import Generated.C08Fields Model.C08 Proofs.C08 Proofs.C08_engine Proofs.C08_template.
 Import ListNotations.
 Local Open Scope Z_scope.
 
@@ -259,6 +259,65 @@ Theorem protocol_constants_as_assumed : params_ok = true.
 Proof. exact params_ok_holds. Qed.
 Print Assumptions protocol_constants_as_assumed.
 
+(* ---- the template signature covers everything that is hashed into the identity of a merge-mined object ---- *)
+
+(* generated: ProtoAuxPow schema, AuxPow.ProtoEncode, every control-flow path of AuxPow.ConvertToTemplate, AuxTemplate.Hash:
+   every identity field reaches the signed template on every path (or the path is the field's own nil-normalisation) *)
+Theorem convert_to_template_covers_identity : template_covers_identity = true.
+Proof. exact template_covers_identity_holds. Qed.
+Print Assumptions convert_to_template_covers_identity.
+
+(* equal signed messages (the template without its signature) => every signed part of the two AuxPoWs is equal: chain id,
+   donor prevHash / version / bits, auxPow2 (up to nil = empty) FOR EVERY CHAIN ID, merkle branch, payout (outputs + locktime),
+   signature time, and the Ravencoin height *)
+Theorem template_covers_every_signed_field : forall a b,
+  template_msg (template_of a) = template_msg (template_of b) ->
+  af_powid a = af_powid b /\ af_prev a = af_prev b /\ af_version a = af_version b /\ af_bits a = af_bits b
+  /\ aux2_norm (af_aux2 a) = aux2_norm (af_aux2 b) /\ af_branch a = af_branch b
+  /\ extract_coinbase_out (af_tx a) = extract_coinbase_out (af_tx b)
+  /\ t_sigtime (template_of a) = t_sigtime (template_of b)
+  /\ (af_powid a = powid_kawpow -> af_height a = af_height b).
+Proof. exact template_covers_signed_fields_lemma. Qed.
+Print Assumptions template_covers_every_signed_field.
+
+(* one signed message, one piece of work (donor header), one signature, one coinbase => one object: everything
+   AuxPow.ProtoEncode writes (what the post-fork Hash() hashes) is equal, up to the nil/empty form of auxPow2.
+   (That the coinbase is fixed by the donor header is merkle_root_binds_leaf_*; that a signature fits one message is the
+   unforgeability of MuSig2, a trusted primitive.) *)
+Theorem auxpow_identity_bound_by_template_work_coinbase_partial : forall a b,
+  template_msg (template_of a) = template_msg (template_of b) ->
+  af_donor a = af_donor b -> af_sig a = af_sig b -> af_tx a = af_tx b ->
+  identity_norm a = identity_norm b.
+Proof. exact auxpow_identity_bound_lemma. Qed.
+Print Assumptions auxpow_identity_bound_by_template_work_coinbase_partial.
+
+(* the full statement (identity a = identity b) is FALSE: auxPow2 absent and auxPow2 present-and-empty are two wire
+   encodings, two identity hashes, one template (finding auxpow-field-unbound:*:aux.auxPow2.presence) *)
+Theorem auxpow_identity_presence_refuted :
+  exists a b, template_of a = template_of b /\ af_donor a = af_donor b /\ af_sig a = af_sig b /\ af_tx a = af_tx b
+              /\ identity a <> identity b.
+Proof. exact auxpow_identity_presence_refuted_lemma. Qed.
+Print Assumptions auxpow_identity_presence_refuted.
+
+(* a conversion that copies auxPow2 for the scrypt chain only does not have the property, even up to normalisation *)
+Theorem template_copying_aux2_for_scrypt_only_refuted :
+  exists a b, template_of_scrypt_only a = template_of_scrypt_only b /\ af_donor a = af_donor b /\ af_sig a = af_sig b
+              /\ af_tx a = af_tx b /\ identity_norm a <> identity_norm b.
+Proof. exact template_copying_aux2_for_scrypt_only_refuted_lemma. Qed.
+Print Assumptions template_copying_aux2_for_scrypt_only_refuted.
+
+(* ---- no proof-of-work hash, no seal: when the engine answers an error nothing is accepted on its account ---- *)
+
+Theorem engine_error_never_accepted : forall e h, e_fake e = false -> eng_err e h = true ->
+  verify_seal e h <> SealOk
+  /\ (forall k, check_work_threshold e h k <> WBool true)
+  /\ (check_valid_ws e h = WsInvalid \/ check_valid_ws e h = WsPanic)
+  /\ classify e h <> WsBlock /\ classify e h <> WsSub
+  /\ (classify e h = WsValid ->
+      exists id d, h_aux h = Some id /\ (id =? powid_kawpow) = false /\ donor_share h d = WsValid).
+Proof. exact engine_error_never_accepted_lemma. Qed.
+Print Assumptions engine_error_never_accepted.
+
 (* ---- the engines' result caches (kawpow / progpow hashCache) cannot move a seal to other content ---- *)
 
 (* For EVERY history of verifications on one engine instance, starting cold, with arbitrary evictions in between,
@@ -327,3 +386,18 @@ Example merkle_nonvacuous :
   merkle_root (fun x => firstn 32 (x ++ zeros 32)) 2 [5;6] [[1]; [2]] =
   merkle_root (fun x => firstn 32 (x ++ zeros 32)) 2 [5;6] [[1]; [2] ++ zeros 31].
 Proof. vm_compute. reflexivity. Qed.
+
+(* a well-formed BCH coinbase: signature time, height and payout are read off the transaction *)
+Definition ex_tmpl_tx : bytes :=
+  [1;0;0;0] ++ [1] ++ repeat 0 32 ++ [255;255;255;255] ++ [54]
+  ++ ([1;5] ++ [44] ++ [250;190;109;109] ++ repeat 7 40 ++ [1;0] ++ [4;1;2;3;4]) ++ [255;255;255;255] ++ [9;9].
+Example template_nonvacuous :
+  template_of (mkAuxFull 3 [7] [8] 536870912 486604799 0 None ex_tmpl_tx [[3]] [9])
+  = mkTmpl 3 [8] 536870912 486604799 (Some []) 67305985 5 (Some [9;9]) [[3]] [9].
+Proof. vm_compute. reflexivity. Qed.
+
+Example engine_error_nonvacuous :
+  let e := mkEnv false 4 [] true [] true in
+  let h := mkHdr (kawpow_fork_block + 5) 1000 None (Some 1) 0 0 (Some 1) 0 0 (Some 1000000) [] in
+  e_fake e = false /\ eng_err e h = true /\ check_valid_ws e h = WsInvalid /\ classify e h = WsInvalid.
+Proof. vm_compute. repeat split; reflexivity. Qed.
